@@ -46,7 +46,12 @@ def gen_sites():
     core.write_if_changed(core.GEN / "GenSites.v", sites.translate(core.PKG))
 
 
-ALL = [gen_share, gen_tables, gen_stats, gen_pragma, gen_ops, gen_hash, gen_sites]
+def gen_skeletons():
+    from pyt2coq import skeletons
+    core.write_if_changed(core.GEN / "GenSkeletons.v", skeletons.translate(core.PKG))
+
+
+ALL = [gen_share, gen_tables, gen_stats, gen_pragma, gen_ops, gen_hash, gen_sites, gen_skeletons]
 
 
 def gen_all(strict=True):
